@@ -715,6 +715,14 @@ def main(argv):
         seed = int(os.environ.get("VERIF_SEED", "0"))
     except ValueError:
         seed = 0
+    # address-space cap (inherited by the Lean driver): a runaway allocation ends this check with exit 2
+    # instead of taking the machine down
+    try:
+        import resource
+        cap = int(float(os.environ.get("VERIF_MEM_GB", "24")) * 2 ** 30)
+        resource.setrlimit(resource.RLIMIT_AS, (cap, cap))
+    except Exception:
+        pass
     # whole-check watchdog: a hang is a harness problem (exit 2), never a violation
     import threading
     limit = float(os.environ.get("VERIF_TIMEOUT", "3300" if tier == "quick" else "14000"))
